@@ -71,7 +71,7 @@ func genC01Case() *rapid.Generator[C01Case] {
 		for gi := 0; gi < g; gi++ {
 			seq := 0
 			opGen := rapid.Custom(func(t *rapid.T) C01Op {
-				k := rapid.SampledFrom([]string{"enq", "enq", "enq", "enqb", "enqb", "deq", "deq", "deq", "ack", "ack", "nack", "dead", "ackb", "nackb", "ackbx", "nackbx", "cancel", "requeue", "deldead", "ckpt"}).Draw(t, "k")
+				k := rapid.SampledFrom([]string{"enq", "enq", "enq", "enqb", "enqb", "deq", "deq", "deq", "ack", "ack", "nack", "dead", "ackb", "nackb", "ackbx", "nackbx", "cancel", "requeue", "deldead", "ckpt", "enqbig"}).Draw(t, "k")
 				if k == "cancel" && drop == "drop_oldest" {
 					k = "nack" // a cancel of a message that may have been evicted has no predictable outcome
 				}
@@ -88,6 +88,15 @@ func genC01Case() *rapid.Generator[C01Case] {
 						op.IDs = append(op.IDs, fmt.Sprintf("g%d-%d", gi, seq))
 					}
 					op.Pay = rapid.SampledFrom([]int{0, 7, 700}).Draw(t, "pay")
+				case "enqbig":
+					// a batch far beyond any internal chunk size: still one atomic step
+					op.K = "enqb"
+					n := rapid.SampledFrom([]int{257, 300, 520}).Draw(t, "nbig")
+					for i := 0; i < n; i++ {
+						seq++
+						op.IDs = append(op.IDs, fmt.Sprintf("g%d-%d", gi, seq))
+					}
+					op.Pay = 3
 				case "deq":
 					op.N = rapid.SampledFrom([]int{1, 1, 2, 5}).Draw(t, "n")
 				case "ackb", "nackb":
@@ -113,7 +122,7 @@ func genC01Case() *rapid.Generator[C01Case] {
 			c.Scripts = append(c.Scripts, script)
 		}
 		c.Label = rapid.SampledFrom(c01Labels).Draw(t, "label")
-		c.Nth = rapid.SampledFrom([]int{1, 1, 2, 3, 5, 8, 13, 21}).Draw(t, "nth")
+		c.Nth = rapid.SampledFrom([]int{1, 1, 2, 3, 5, 8, 13, 21, 258, 300, 400}).Draw(t, "nth")
 		if c.Label == "sqlite.migrate.step" {
 			c.Nth = rapid.IntRange(1, 6).Draw(t, "migrate_nth")
 		}
@@ -592,6 +601,9 @@ func runC01Store(c C01Case, _ bool) qOutcome {
 		}
 		if why != "" {
 			out.Failure = fail("C01", "durability", g, "crash at %s:%d, goroutine %d: %s", c.Label, c.Nth, g, why)
+			if labels["inflight-enqb"] {
+				out.Failure.Prop = "C01,C15" // a batch that is neither stored as a whole nor absent as a whole
+			}
 			return finish()
 		}
 	}
@@ -636,6 +648,40 @@ func TestProp_C01_StoreCrash(t *testing.T) {
 		verifkit.Emit(verifkit.Record{Prop: "C01", Test: "TestProp_C01_StoreCrash", Hash: verifkit.Hash(c), NonTrivial: out.NonTriv, Labels: out.Labels, Skipped: out.Skipped}, c)
 		if out.Failure != nil {
 			verifkit.SaveFailing("TestProp_C01_StoreCrash", c, out.Failure)
+			rt.Fatalf("%v", out.Failure)
+		}
+	})
+}
+
+// TestProp_C15_BatchCrash: the crash tier for C15's share - a batch enqueue (the store call behind
+// Admin publish) that is interrupted is stored as a whole or not at all, whatever its size.
+func TestProp_C15_BatchCrash(t *testing.T) {
+	gen := rapid.Custom(func(t *rapid.T) C01Case {
+		c := genC01Case().Draw(t, "case")
+		// every goroutine ends with a big batch; the crash lands inside batch inserts
+		for g := range c.Scripts {
+			var ids []string
+			n := rapid.SampledFrom([]int{257, 300, 520, 600}).Draw(t, "nbig")
+			for i := 0; i < n; i++ {
+				ids = append(ids, fmt.Sprintf("g%d-big%d", g, i))
+			}
+			c.Scripts[g] = append(c.Scripts[g], C01Op{K: "enqb", IDs: ids, Pay: 2})
+		}
+		c.Label = rapid.SampledFrom([]string{"sqlite.batch.insert", "sqlite.batch.insert", "sqlite.commit.before", "sqlite.commit.after"}).Draw(t, "label15")
+		c.Nth = rapid.SampledFrom([]int{1, 100, 256, 257, 258, 300, 512, 513, 520}).Draw(t, "nth15")
+		c.Reopen = ""
+		return c
+	})
+	rapid.Check(t, func(rt *rapid.T) {
+		c := gen.Draw(rt, "case")
+		out := runC01Store(c, true)
+		if f := out.Failure; f != nil && f.Prop != "HARNESS" && !propIn(f.Prop, "C15") {
+			out.Failure = nil
+			out.Labels = append(out.Labels, "foreign-clause")
+		}
+		verifkit.Emit(verifkit.Record{Prop: "C15", Test: "TestProp_C15_BatchCrash", Hash: verifkit.Hash(c), NonTrivial: out.NonTriv, Labels: out.Labels, Skipped: out.Skipped}, c)
+		if out.Failure != nil {
+			verifkit.SaveFailing("TestProp_C15_BatchCrash", c, out.Failure)
 			rt.Fatalf("%v", out.Failure)
 		}
 	})
